@@ -3,6 +3,7 @@
 //! Every suite prints one case per line:  op \t args \t real-result
 //! The OCaml driver (extracted Coq model) recomputes the result from `op args` and compares.
 mod sbdd;
+mod scli;
 mod stext;
 mod sx;
 
@@ -69,6 +70,7 @@ fn main() {
     match suite.as_str() {
         "bdd" => sbdd::main(&mut out, &o),
         "text" => stext::main(&mut out, &o),
+        "cli" => scli::main(&mut out, &o),
         "replay" => {
             // re-run case lines given on stdin (op \t args [\t old-real]) against the current implementation
             let stdin = std::io::stdin();
@@ -98,7 +100,7 @@ fn main() {
     let _ = out.w.flush();
 }
 
-fn replay_one(op: &str, args: &str, _o: &Opts) -> String {
+fn replay_one(op: &str, args: &str, o: &Opts) -> String {
     match op {
         "run" => match sx::parse(args) {
             Ok(x) => sbdd::run_case(&rsbdd::bdd::BDDEnv::new(), &x),
@@ -106,6 +108,10 @@ fn replay_one(op: &str, args: &str, _o: &Opts) -> String {
         },
         "tok" | "parse" | "eval" => match sx::parse(args) {
             Ok(x) => stext::replay(op, &x),
+            Err(e) => format!("(harness-error {e})"),
+        },
+        "cli" | "robust" => match sx::parse(args) {
+            Ok(x) => scli::replay(op, &x, &o.bindir),
             Err(e) => format!("(harness-error {e})"),
         },
         _ => "(harness-unknown-op)".into(),
